@@ -180,6 +180,31 @@ func shapeAndDefs(fd *ast.FuncDecl) (shape []string, defs []string) {
 	return
 }
 
+// identUses: every identifier of the function in source order, field selectors and composite-literal keys excepted
+// (they are not locals, and may share a name with one).
+func identUses(fd *ast.FuncDecl) []string {
+	skip := map[*ast.Ident]bool{}
+	ast.Inspect(fd, func(n ast.Node) bool {
+		switch x := n.(type) {
+		case *ast.SelectorExpr:
+			skip[x.Sel] = true
+		case *ast.KeyValueExpr:
+			if id, ok := x.Key.(*ast.Ident); ok {
+				skip[id] = true
+			}
+		}
+		return true
+	})
+	var out []string
+	ast.Inspect(fd, func(n ast.Node) bool {
+		if id, ok := n.(*ast.Ident); ok && !skip[id] {
+			out = append(out, id.Name)
+		}
+		return true
+	})
+	return out
+}
+
 // renaming computes old -> new for the top-level function a contract is attached to; nil when nothing is to be
 // (or can safely be) re-bound.
 func (rb *rebinder) renaming(contractFile, key string) map[string]string {
@@ -246,6 +271,22 @@ func (rb *rebinder) renaming(contractFile, key string) map[string]string {
 		}
 		if !changed {
 			return nil
+		}
+		// the renaming must explain every identifier of the function, not only the definitions: two declarations of
+		// the same shape that merely changed places (`used := 0; i := 0` -> `i := 0; used := 0`) look like a
+		// consistent renaming of the definitions, but the uses did not follow
+		u1, u2 := identUses(old), identUses(cur)
+		if len(u1) != len(u2) {
+			return nil
+		}
+		for i := range u1 {
+			want := u1[i]
+			if x, ok := fwd[want]; ok {
+				want = x
+			}
+			if want != u2[i] {
+				return nil
+			}
 		}
 		m := map[string]string{}
 		for a, b := range fwd {
